@@ -226,7 +226,7 @@ func c19Program(kind svc.Kind, point string, v *c19Value) (*svc.Program, []*gen.
 }
 
 func c19(run *ev.Run) int {
-	run.SetRule("cases = panic values {nil, error, *connect.Error, wrapped *connect.Error, string, int, struct, pointer, error wrapping the abort sentinel, error whose Is matches it, the sentinel itself} x 4 kinds x 3 protocols x panic point {before first receive, between sends, after last send} x client context {no deadline, far deadline} x 12 placements of WithRecover among other interceptors/option groups x {in-memory loopback; real HTTP/1.1 and HTTP/2 servers (quick: one placement, thorough: all 12)}; what the recovery function returns {coded error with details and metadata, plain error, wrapped coded error, each of the 16 codes} compared with the same error returned by a non-panicking handler; gateway-style unary handlers that forward the request object they received to another client before panicking; concurrent phase: G goroutines x K calls on shared handlers (real HTTP/2 + HTTP/1.1), every panic value unique, one in three calls not panicking, ; also recovery functions returning several KiB of textoracle = multiset of recovered values equals multiset of panics and every client sees the error built from its own value; sentinel cases run ServeHTTP directly under recover(); plus non-panicking calls with and without WithRecover (differential); exhaustive in this bound; distinct by (value, kind, protocol, point, placement, transport); history: a WithInterceptors value shared by handlers with their own WithRecover")
+	run.SetRule("cases = panic values {nil, error, *connect.Error, wrapped *connect.Error, string, int, struct, pointer, error wrapping the abort sentinel, error whose Is matches it, the sentinel itself} x 4 kinds x 3 protocols x panic point {before first receive, between sends, after last send} x client context {no deadline, far deadline} x 12 placements of WithRecover among other interceptors/option groups x {in-memory loopback; real HTTP/1.1 and HTTP/2 servers (quick: one placement, thorough: all 12)}; what the recovery function returns {coded error with details and metadata, plain error, wrapped coded error, each of the 16 codes} compared with the same error returned by a non-panicking handler; gateway-style unary handlers that forward the request object they received to another client before panicking; concurrent phase: G goroutines x K calls on shared handlers (real HTTP/2 + HTTP/1.1), every panic value unique, one in three calls not panicking, ; also recovery functions returning several KiB of textoracle = multiset of recovered values equals multiset of panics and every client sees the error built from its own value; sentinel cases run ServeHTTP directly under recover(); plus non-panicking calls with and without WithRecover (differential); exhaustive in this bound; distinct by (value, kind, protocol, point, placement, transport); history: a WithInterceptors value shared by handlers with their own WithRecover; layouts include an outer interceptor that annotates every error with %w")
 	values := c19Values()
 	layouts := c19Layouts()
 	points := []string{"start", "mid", "end"}
